@@ -83,6 +83,7 @@ func nftRule(kind string) generictables.Rule {
 }
 
 var nftVariants = map[string][]string{
+	"A0": {}, "B0": {},
 	"A1": {"drop-tcp"}, "A2": {"jB", "drop-tcp"}, "A3": {"drop-tcp", "acc-udp", "ret"}, "A4": {"acc-udp", "drop-tcp"},
 	"B1": {"acc"}, "B2": {"drop-tcp", "acc"},
 	"H0": {}, "H1": {"jA"}, "H2": {"jA", "jB"}, "H3": {"jB"},
@@ -522,10 +523,10 @@ func nftEnabled(s *nftState, depth int) []nftEv {
 	}
 	var evs []nftEv
 	add := func(e nftEv) { evs = append(evs, e) }
-	for _, v := range []string{"A1", "A2", "A3", "A4"} {
+	for _, v := range []string{"A0", "A1", "A2", "A3", "A4"} {
 		add(nftEv{Op: "chain", Chain: "cali-A", V: v})
 	}
-	for _, v := range []string{"B1", "B2"} {
+	for _, v := range []string{"B0", "B1", "B2"} {
 		add(nftEv{Op: "chain", Chain: "cali-B", V: v})
 	}
 	for _, c := range []string{"cali-A", "cali-B"} {
